@@ -402,6 +402,12 @@ func TestC17HardLimit(t *testing.T) {
 			"drain": func(t *rapid.T) {
 				g.release()
 				if !s.WaitEvictions(20 * time.Second) {
+					if q := disk.VerifQueuedEvictionBytes(s.Cache); q < 0 {
+						// not a slow remover: the counter the hard-limit admission adds to
+						// the cache size has gone below zero, so admission under-counts
+						// what is on disk
+						t.Fatalf("the count of bytes queued for deletion is %d after the remover was released: the hard limit is checked against less than what is on disk\n%s", q, strings.Join(w.log, "\n"))
+					}
 					fmt.Println("VERIF-INFRA: backlog did not drain")
 					t.Fatalf("VERIF-INFRA")
 				}
